@@ -1,13 +1,15 @@
 (* C17 - canonical output is a fixed point of its own canonicalizer.
    First the repeated-percent-decoding component (Proofs/CodecProofs.v, DecodeOnePassProofs.v); then, at the end of
    this file, the whole-profile fixed point for every profile without repeated decoding (Proofs/CanonIdem.v).
-   For profiles WITH repeated decoding (GoogleSafeBrowsing, Semantic, compositions) the whole-profile statement is
-   decided on the implementation (parse twice, all spellings of the web-URL grammar) and tied to the model by
-   correspondence: partial there. *)
+   For profiles WITH repeated decoding the whole-profile fixed point is proved twice: for profiles over parser options
+   inside cfg_rt (Proofs/RepeatedFixed.v) and, on the grammar web_ok of ordinary web URLs, for the two predefined profiles
+   GoogleSafeBrowsing and Semantic themselves (Proofs/ExperimentalProfiles.v). Outside those grammars (non-LDH / IDNA /
+   numeric hosts under the two predefined profiles, reserved characters after decoding) the statement is decided on the
+   implementation (parse twice, all spellings) and tied to the model by correspondence. *)
 From Verif Require Import Lib.Base Model.Cfg Model.Canon Proofs.CodecProofs.
 From Verif Require Model.DecodeOnePass Proofs.DecodeOnePassProofs.
 From Verif Require Import Lib.Utf8 Lib.GoStr Gen.Tables Gen.Options Model.Url Model.Host Model.Machine Model.Api.
-From Verif Require Import Proofs.RecordInv Proofs.MachineInv Proofs.HostProofs Proofs.SearchParamsProofs Proofs.RoundTripBase Proofs.RoundTripHosts Proofs.CanonIdem Proofs.NormalFormPhases Proofs.NormalForm Proofs.SpellingProofs Proofs.RepeatedSteps Proofs.RepeatedIdem Proofs.RepeatedFixed Proofs.RepeatedExamples.
+From Verif Require Import Proofs.RecordInv Proofs.MachineInv Proofs.HostProofs Proofs.SearchParamsProofs Proofs.RoundTripBase Proofs.RoundTripHosts Proofs.CanonIdem Proofs.NormalFormPhases Proofs.NormalForm Proofs.SpellingProofs Proofs.RepeatedSteps Proofs.RepeatedIdem Proofs.RepeatedFixed Proofs.RepeatedExamples Proofs.WebCfg Proofs.WebHost Proofs.RepeatedWeb Proofs.RepeatedWebFixed Proofs.ExperimentalProfiles.
 
 (* repeated decoding always terminates within its fuel and ends in a string without decodable escapes *)
 Theorem C17_repeated_decode_total : forall s, repeatedDecode s <> None.
@@ -100,8 +102,8 @@ Proof. exact canonical_fixed_point_profiles. Qed.
    alone or combined with any of the removals and either sort-query mode - whose parser configuration satisfies cfg_okm
    and cfg_rt (no Latin-1 override, no skip-equals), and every text of the web-URL grammar whose decoded components are
    literal for the steps' encode sets (rep_ok: in particular unreserved characters in any, also nested, escaping), the
-   canonical string canonicalizes to itself. Not covered: GoogleSafeBrowsing and Semantic themselves (their parser
-   options lie outside cfg_rt): decided on the implementation over all spellings of the grammar. *)
+   canonical string canonicalizes to itself. GoogleSafeBrowsing and Semantic themselves (their parser options lie outside
+   cfg_rt) are covered further down, on the grammar web_ok. *)
 Theorem C17_repeated_fixed_point : forall idna_raw, H3 idna_raw -> forall p,
   cfg_okm (p_cfg p) = true -> cfg_rt (p_cfg p) = true -> c_latin1 (p_cfg p) = false -> c_skipEq (p_cfg p) = false ->
   p_repeated p = true ->
@@ -117,3 +119,43 @@ Example C17_repeated_premises_met : forall p, p = prof_rep \/ p = prof_rep_all -
   exists u s u', ProfileParse idna_toy p (text_of rk1) = CUrl u /\ Href u false = Some s /\
                  ProfileParse idna_toy p s = CUrl u' /\ same_components u' u /\ Href u' false = Some s.
 Proof. exact repeated_fixed_point_ex. Qed.
+
+(* THE TWO PREDEFINED PROFILES WITH REPEATED DECODING (Proofs/ExperimentalProfiles.v). GoogleSafeBrowsing and Semantic
+   switch on lax host parsing, slash collapsing, invalid code points, the single-percent option, a pre-parse host function
+   and skip-equals (GSB) / the Latin-1 override (Semantic): outside cfg_rt. On the grammar web_ok of ordinary web URLs
+   (special scheme, LDH domain host without ACE label or numeric last label, every '%' followed by two hex digits, no
+   empty non-final segment, fully decoded components unreserved and free of dot segments (D24), and under skip-equals no
+   pair ("","")) every one of these options is inert and the canonical string canonicalizes to itself. The only
+   oracle hypothesis is H1 (ASCII transparency), tested on every run. *)
+Theorem C17_gsb_fixed_point : forall idna_raw k u s, oracle_ascii_transparent idna_raw ->
+  web_ok prof_GoogleSafeBrowsing k = true ->
+  ProfileParse idna_raw prof_GoogleSafeBrowsing (text_of k) = CUrl u -> Href u false = Some s ->
+  exists u', ProfileParse idna_raw prof_GoogleSafeBrowsing s = CUrl u' /\ same_components u' u /\ Href u' false = Some s.
+Proof. exact gsb_fixed_point. Qed.
+Print Assumptions C17_gsb_fixed_point.
+
+Theorem C17_semantic_fixed_point : forall idna_raw k u s, oracle_ascii_transparent idna_raw ->
+  web_ok prof_Semantic k = true ->
+  ProfileParse idna_raw prof_Semantic (text_of k) = CUrl u -> Href u false = Some s ->
+  exists u', ProfileParse idna_raw prof_Semantic s = CUrl u' /\ same_components u' u /\ Href u' false = Some s.
+Proof. exact semantic_fixed_point. Qed.
+Print Assumptions C17_semantic_fixed_point.
+
+(* for any profile meeting the boolean prof_web (these two and WithRepeatedPercentDecoding among them) *)
+Theorem C17_web_profile_fixed_point : forall idna_raw, oracle_ascii_transparent idna_raw -> forall p, prof_web p = true ->
+  forall k u s, web_ok p k = true -> ProfileParse idna_raw p (text_of k) = CUrl u -> Href u false = Some s ->
+  exists u', ProfileParse idna_raw p s = CUrl u' /\ same_components u' u /\ Href u' false = Some s.
+Proof. exact experimental_fixed_point. Qed.
+Print Assumptions C17_web_profile_fixed_point.
+
+(* and the texts of the grammar are never rejected, so the statement is not vacuous on any of them *)
+Theorem C17_web_profile_total : forall idna_raw, oracle_ascii_transparent idna_raw -> forall p, prof_web p = true ->
+  forall k, web_ok p k = true -> exists u, ProfileParse idna_raw p (text_of k) = CUrl u.
+Proof. exact experimental_total. Qed.
+Print Assumptions C17_web_profile_total.
+
+Example C17_web_premises_met :
+  prof_web prof_GoogleSafeBrowsing = true /\ prof_web prof_Semantic = true /\ prof_web copt_WithRepeatedPercentDecoding = true /\
+  forallb (fun p => web_ok p wk1 && web_ok p wk2) [prof_GoogleSafeBrowsing; prof_Semantic] = true /\
+  oracle_ascii_transparent idna_toy.
+Proof. exact (conj (proj1 prof_web_predefined) (conj (proj1 (proj2 prof_web_predefined)) (conj (proj2 (proj2 prof_web_predefined)) (conj (proj1 experimental_premises) idna_toy_H1)))). Qed.
